@@ -120,7 +120,7 @@ Proof.
   pose proof (eat_zeros_len (c :: a)) as ZL.
   destruct (eat_zeros (c :: a)) as [z s1] eqn:Hz. cbn [fst snd] in *.
   pose proof (digitsb_zeros _ Ha) as Hs1. rewrite Hz in Hs1. cbn [snd] in Hs1.
-  rewrite (eat_digits_run _ _ Hs1 Hr). f_equal. subst K. cbn [length]. rewrite app_length. apply key_fuel; lia.
+  rewrite (eat_digits_run _ _ Hs1 Hr). f_equal. subst K. cbn [length]. rewrite app_length. cbn [length]. apply key_fuel; lia.
 Qed.
 
 Lemma lexk_common k : forall l1 l2, lexk (k ++ l1) (k ++ l2) = lexk l1 l2.
@@ -162,18 +162,16 @@ Proof.
   pose proof (num_tok_numeric db (zeros b) da (zeros a) Adb Ada Ndb Nda) as N2.
   destruct (tok_eqb (Num da (zeros a)) (Num db (zeros b))) eqn:E.
   - apply tok_eqb_spec in E. injection E as E1 E2. rewrite E1, E2.
-    rewrite N.ltb_irrefl, Nat.ltb_irrefl. rewrite <- less_eq_lessk. reflexivity.
+    rewrite N.ltb_irrefl, Nat.ltb_irrefl. rewrite less_eq_lessk. reflexivity.
   - destruct (N.ltb_spec (dval da) (dval db)) as [L|L].
     + apply N1. left. exact L.
     + destruct (N.ltb_spec (dval db) (dval da)) as [L'|L'].
-      * destruct (tok_ltb (Num da (zeros a)) (Num db (zeros b))) eqn:T; [|reflexivity].
-        apply N1 in T. lia.
+      * apply not_true_is_false. intros T. apply N1 in T. lia.
       * assert (dval da = dval db) as Ev by lia.
         destruct (Nat.ltb_spec (zeros a) (zeros b)) as [Z|Z].
         -- apply N1. right. split; assumption.
         -- destruct (Nat.ltb_spec (zeros b) (zeros a)) as [Z'|Z'].
-           ++ destruct (tok_ltb (Num da (zeros a)) (Num db (zeros b))) eqn:T; [|reflexivity].
-              apply N1 in T. lia.
+           ++ apply not_true_is_false. intros T. apply N1 in T. lia.
            ++ exfalso. assert (zeros a = zeros b) as Ez by lia.
               assert (Num da (zeros a) <> Num db (zeros b)) as Hne.
               { intros K. apply tok_eqb_spec in K. congruence. }
